@@ -431,8 +431,15 @@ func (t *thread) Step() (bool, error) {
 	// script, maximum script element sizes, and conditionals.
 	if err := t.executeOpcode(opcode); err != nil {
 		if ok := errs.IsErrorCode(err, errs.ErrOK); ok {
-			// If returned early, move onto the next script
+			// If returned early, move onto the next script: the script has ended
+			// (successfully), so what ends a script applies here too.
+			// Alt stack doesn't persist.
+			_ = t.astack.DropN(t.astack.Depth())
 			t.shiftScript()
+			// there are zero length scripts in the wild
+			if t.scriptIdx < len(t.scripts) && t.scriptOff >= len(t.scripts[t.scriptIdx]) {
+				t.scriptIdx++
+			}
 			t.lastCodeSep = 0
 			t.codeSepSeen = false
 			return t.scriptIdx >= len(t.scripts), nil
